@@ -196,7 +196,18 @@ func c15Run(s *sim.Sim, p *sim.Params) {
 		passes[name] = append(passes[name], c15pass{ver: ver, typed: typed, ret: r})
 		return r
 	}
+	// "hot" runs concentrate every caller on one route with tiny thresholds and windows, so that
+	// tier upgrades (recompileRoute) overlap cache hits of other callers
+	hot := s.Choose(sim.SWork, 4) == 0
+	if hot {
+		j.SetHotPathThreshold(1)
+		j.SetRecompileWindow(0)
+		s.Probe("hot-run")
+	}
 	ntasks := 1 + s.Choose(sim.SWork, 5)
+	if hot && ntasks < 2 {
+		ntasks = 2
+	}
 	var hs []*sim.Handle
 	for ti := 0; ti < ntasks; ti++ {
 		nops := 3 + s.Choose(sim.SWork, 14)
@@ -210,7 +221,12 @@ func c15Run(s *sim.Sim, p *sim.Params) {
 		ops := make([]op, nops)
 		for i := range ops {
 			o := op{name: c15names[s.Choose(sim.SWork, len(c15names))]}
-			switch r := s.Choose(sim.SWork, 20); {
+			r0 := s.Choose(sim.SWork, 20)
+			if hot {
+				o.name = c15names[0]
+				r0 = []int{0, 1, 2, 8, 9, 10, 11, 16, 0, 8}[s.Choose(sim.SWork, 10)]
+			}
+			switch r := r0; {
 			case r < 5:
 				o.kind = "compile"
 			case r < 8:
